@@ -357,8 +357,10 @@ def r6_own_arrays(ctx):
     """R6: a spectrum owns its per-channel arrays: the constructor stores param[argsort(frequency)] (a fancy index, hence a copy)
     for every field, so the in-place share updates of add_ase / add_nli can never write into an array that another field or
     the caller also holds (shared with C01-R2) - otherwise a passive fibre could change the ASE share"""
-    from .c01 import init_permutation
-    init_permutation(ctx, 'R6.own-arrays')
+    from .c01 import r2_base
+    from .common import proxy
+    r2_base(proxy(ctx, 'R6'))        # constructor permutation + field-by-field mapping of select_channels / __add__
+    ctx.need('R6.init-permutation', 16)
 
 
 def r4_no_reset(ctx):
